@@ -651,7 +651,7 @@ int fb_gen_common_c_builder_header(fb_output_t *out)
 
     /* This goes for scalar, struct, and enum vectors. */
     fprintf(out->fp,
-        "#define __%sbuild_vector_field(ID, NS, N, TN, T, TT)\\\n"
+        "#define __%sbuild_vector_field_ops(ID, NS, N, TN, T, TT)\\\n"
         "static inline int N ## _add(NS ## builder_t *B, TN ## _vec_ref_t ref)\\\n"
         "{ TN ## _vec_ref_t *_p; return (ref && (_p = flatcc_builder_table_add_offset(B, ID))) ? ((*_p = ref), 0) : -1; }\\\n"
         "static inline int N ## _start(NS ## builder_t *B)\\\n"
@@ -666,13 +666,39 @@ int fb_gen_common_c_builder_header(fb_output_t *out)
         "{ return N ## _add(B, TN ## _vec_create(B, data, len)); }\\\n"
         "static inline int N ## _slice(NS ## builder_t *B, TN ## _vec_t vec, size_t index, size_t len)\\\n"
         "{ return N ## _add(B, TN ## _vec_slice(B, vec, index, len)); }\\\n"
+        "__%sbuild_vector_ops(NS, N, N, TN, T)\\\n"
+        "\n"
+        "#define __%sbuild_vector_field(ID, NS, N, TN, T, TT)\\\n"
+        "__%sbuild_vector_field_ops(ID, NS, N, TN, T, TT)\\\n"
         "static inline int N ## _clone(NS ## builder_t *B, TN ## _vec_t vec)\\\n"
         "{ return N ## _add(B, TN ## _vec_clone(B, vec)); }\\\n"
         "static inline int N ## _pick(NS ## builder_t *B, TT ## _table_t t)\\\n"
-        "{ TN ## _vec_t _p = N ## _get(t); return _p ? N ## _clone(B, _p) : 0; }\\\n"
-        "__%sbuild_vector_ops(NS, N, N, TN, T)\\\n"
+        "{ TN ## _vec_t _p = N ## _get(t); return _p ? N ## _clone(B, _p) : 0; }\n"
+        "\n"
+        "#define __%sbuild_nested_vector_field(ID, NS, N, TN, T, TT)\\\n"
+        "__%sbuild_vector_field_ops(ID, NS, N, TN, T, TT)\\\n"
+        "__%sbuild_nested_vector_clone(NS, N, TN, TT)\n"
         "\n",
-        nsc, nsc);
+        nsc, nsc, nsc, nsc, nsc, nsc, nsc);
+
+    /*
+     * A [ubyte] field holding a nested buffer: clone must not lose the
+     * alignment of the nested buffer, so the copy gets the alignment the
+     * source data has in memory (capped), and not that of a byte vector.
+     */
+    fprintf(out->fp,
+        "#define __%sbuild_nested_vector_clone(NS, N, TN, TT)\\\n"
+        "static inline int N ## _clone(NS ## builder_t *B, TN ## _vec_t vec)\\\n"
+        "{ NS ## ref_t _ref; size_t _a = (size_t)vec & (~(size_t)vec + 1);\\\n"
+        "  if (_a == 0 || _a > 256) _a = 256; if (_a < sizeof(NS ## uoffset_t)) _a = sizeof(NS ## uoffset_t);\\\n"
+        "  if (!(_ref = flatcc_builder_refmap_find(B, flatcc_builder_refmap_vec_key(vec)))) {\\\n"
+        "  _ref = flatcc_builder_refmap_insert(B, flatcc_builder_refmap_vec_key(vec), flatcc_builder_create_vector(B, vec,\\\n"
+        "    TN ## _vec_len(vec), 1, (uint16_t)_a, FLATBUFFERS_COUNT_MAX(1))); }\\\n"
+        "  return N ## _add(B, _ref); }\\\n"
+        "static inline int N ## _pick(NS ## builder_t *B, TT ## _table_t t)\\\n"
+        "{ TN ## _vec_t _p = N ## _get(t); return _p ? N ## _clone(B, _p) : 0; }\n"
+        "\n",
+        nsc);
 
     fprintf(out->fp,
         "#define __%sbuild_offset_vector_field(ID, NS, N, TN, TT)\\\n"
@@ -1636,8 +1662,8 @@ static int gen_builder_table_fields(fb_output_t *out, fb_compound_type_t *ct)
             tname = scalar_type_name(member->type.st);
             tprefix = scalar_type_prefix(member->type.st);
             fprintf(out->fp,
-                "__%sbuild_vector_field(%"PRIu64", %s, %s_%.*s, %s%s, %s%s, %s)\n",
-                nsc, (uint64_t)member->id, nsc, snt.text, n, s, nsc, tprefix, tname_ns, tname, snt.text);
+                "__%sbuild_%svector_field(%"PRIu64", %s, %s_%.*s, %s%s, %s%s, %s)\n",
+                nsc, member->nest ? "nested_" : "", (uint64_t)member->id, nsc, snt.text, n, s, nsc, tprefix, tname_ns, tname, snt.text);
             /* [ubyte] vectors can nest buffers. */
             if (member->nest) {
                 switch (member->nest->symbol.kind) {
